@@ -555,4 +555,37 @@ def startIters (tables : List Tbl) (iters : List Nat) :
         | .error e => .error e
         | .ok (t', ls) => startIters (tables.set ti t') iters rest (acc ++ [(i, ls)])
 
+/-- what can happen between the steps of interleaved printing: an iterator is advanced for the first
+time (`start i`), or the caller changes what a table shows — `table.fmt.set_limits((a, b))` on the
+live format object (widths and flag stay), `table.records.append(r)` on the caller-owned list -/
+inductive Ev where
+  | start (i : Nat)
+  | setLimits (ti : Nat) (a b : Option Int)
+  | append (ti : Nat) (r : Record)
+  deriving Repr
+
+/-- `startIters` with changes of the tables in between: every iterator yields the lines of its table
+as the table is when the iterator is started; what happens later does not reach it -/
+def runEvents (tables : List Tbl) (iters : List Nat) :
+    List Ev → List (Nat × List Line) → Except Err (List (Nat × List Line))
+  | [], acc => .ok acc
+  | .start i :: rest, acc =>
+    match iters[i]? with
+    | Option.none => .error .indexError
+    | some ti =>
+      match tables[ti]? with
+      | Option.none => .error .indexError
+      | some t =>
+        match render t with
+        | .error e => .error e
+        | .ok (t', ls) => runEvents (tables.set ti t') iters rest (acc ++ [(i, ls)])
+  | .setLimits ti a b :: rest, acc =>
+    match tables[ti]? with
+    | Option.none => .error .indexError
+    | some t => runEvents (tables.set ti { t with fmt := { t.fmt with limF := a, limL := b } }) iters rest acc
+  | .append ti r :: rest, acc =>
+    match tables[ti]? with
+    | Option.none => .error .indexError
+    | some t => runEvents (tables.set ti { t with records := t.records ++ [r] }) iters rest acc
+
 end Table
